@@ -78,25 +78,25 @@ const (
 )
 
 type Sched struct {
-	ch        *Choices
-	tasks     []*Task
-	cur       *Task
-	toSched   chan schedMsg
-	Steps     uint64
-	Seq       int64
-	Policy    int
-	MeanQ     int
-	MaxSteps  uint64
+	ch          *Choices
+	tasks       []*Task
+	cur         *Task
+	toSched     chan schedMsg
+	Steps       uint64
+	Seq         int64
+	Policy      int
+	MeanQ       int
+	MaxSteps    uint64
 	MaxSwitches int
-	fp        *Fingerprint
-	Switches  int
-	SwitchSet map[[2]int32]struct{}
-	OnEvent   func(ev *Event) // scheduler goroutine; may record a violation via s.Fail
-	StallP    int             // per-mille probability that a scheduling decision stalls a task
-	AbandonP  int
-	Stalls    int
-	Abandons  int
-	wg        sync.WaitGroup
+	fp          *Fingerprint
+	Switches    int
+	SwitchSet   map[[2]int32]struct{}
+	OnEvent     func(ev *Event) // scheduler goroutine; may record a violation via s.Fail
+	StallP      int             // per-mille probability that a scheduling decision stalls a task
+	AbandonP    int
+	Stalls      int
+	Abandons    int
+	wg          sync.WaitGroup
 
 	// results
 	BlockedTask *Task // durably blocked inside library code
@@ -331,7 +331,11 @@ func (s *Sched) Run() {
 	hessian.VfStep = s.stepHook
 	hessian.VfBlocked = s.lockBlocked
 	hessian.VfOnceEnter, hessian.VfOnceExit = s.onceEnter, s.onceExit
-	defer func() { hessian.VfStep = nil; hessian.VfBlocked = nil; hessian.VfOnceEnter, hessian.VfOnceExit = nil, nil }()
+	defer func() {
+		hessian.VfStep = nil
+		hessian.VfBlocked = nil
+		hessian.VfOnceEnter, hessian.VfOnceExit = nil, nil
+	}()
 	if s.Policy == polPCT {
 		for _, t := range s.tasks {
 			t.prio = 1000 + s.ch.Intn(1000, "prio")
